@@ -351,3 +351,734 @@ Qed.
 
 Lemma mark_step_pending_rel l s s' : mark_step_pending l s = Ok s' -> mark_rel s s'.
 Proof. unfold mark_step_pending. apply (proj1 (mark_effect _)). Qed.
+
+(* ------------------------------------------------------------------------------------------ *)
+(* Function view of the step table                                                             *)
+(* ------------------------------------------------------------------------------------------ *)
+Lemma find_map_upd {A} (lab : A -> str) (g : A -> A) (l : list A) (x : str) :
+  (forall r, lab (g r) = lab r) ->
+  find (fun r => str_eqb (lab r) x) (map g l) =
+  match find (fun r => str_eqb (lab r) x) l with Some r => Some (g r) | None => None end.
+Proof.
+  intros Hg. induction l as [|r l IH]; [reflexivity|]. cbn [map find]. rewrite Hg.
+  destruct (str_eqb (lab r) x); [reflexivity | exact IH].
+Qed.
+
+Lemma str_eqb_sym a b : str_eqb a b = str_eqb b a.
+Proof.
+  destruct (str_eqb a b) eqn:E1, (str_eqb b a) eqn:E2; try reflexivity.
+  - apply str_eqb_eq in E1. subst. rewrite str_eqb_refl in E2. discriminate.
+  - apply str_eqb_eq in E2. subst. rewrite str_eqb_refl in E1. discriminate.
+Qed.
+
+Lemma sstate_of_set l new d s s' : set_sstate l new d s = Ok s' ->
+  forall x, sstate_of x s' = if str_eqb x l then (match sstate_of x s with Some _ => Some new | None => None end)
+                             else sstate_of x s.
+Proof.
+  unfold set_sstate. destruct (find_step l s) as [r0|] eqn:E0.
+  - destruct (d && negb (sstate_eqb new SPending)); [discriminate|]. intros H. inversion H. subst s'. clear H.
+    intros x. unfold sstate_of, find_step, upd_step. cbn [steps set_steps].
+    rewrite (find_map_upd sl); [|intros r; destruct (str_eqb (sl r) l); reflexivity].
+    destruct (find (fun r => str_eqb (sl r) x) (steps s)) as [r|] eqn:Ex.
+    + apply find_some in Ex. destruct Ex as [_ Ex]. apply str_eqb_eq in Ex. subst x.
+      rewrite (str_eqb_sym (sl r) l). destruct (str_eqb l (sl r)); reflexivity.
+    + destruct (str_eqb x l); reflexivity.
+  - intros H. inversion H. subst s'. intros x. destruct (str_eqb x l) eqn:E; [|reflexivity].
+    apply str_eqb_eq in E. subst x. unfold sstate_of. rewrite E0. reflexivity.
+Qed.
+
+Lemma set_sstate_raw_spec l new s s' : set_sstate_raw l new s = Ok s' ->
+  frame s s' /\ map sl (steps s') = map sl (steps s) /\
+  forall x, sstate_of x s' = if str_eqb x l then (match sstate_of x s with Some _ => Some new | None => None end)
+                             else sstate_of x s.
+Proof.
+  unfold set_sstate_raw. destruct (find_step l s) as [r|] eqn:E.
+  - intros H. destruct (set_sstate_frame _ _ _ _ _ H) as [Hf Hl]. split; [exact Hf|]. split; [exact Hl|].
+    eapply sstate_of_set. exact H.
+  - intros H. inversion H. subst s'. split; [apply frame_refl|]. split; [reflexivity|].
+    intros x. destruct (str_eqb x l) eqn:Ex; [|reflexivity]. apply str_eqb_eq in Ex. subst.
+    unfold sstate_of. rewrite E. reflexivity.
+Qed.
+
+Lemma Forall2_find_s (a b : list srow) x : Forall2 Rs a b ->
+  match find (fun r => str_eqb (sl r) x) a, find (fun r => str_eqb (sl r) x) b with
+  | Some r, Some r' => Rs r r'
+  | None, None => True
+  | _, _ => False end.
+Proof.
+  induction 1 as [|r r' a b [Hl Hs] _ IH]; cbn [find]; [exact I|]. rewrite Hl.
+  destruct (str_eqb (sl r) x); [split; assumption | exact IH].
+Qed.
+Lemma Forall2_find_f (a b : list frow) x : Forall2 Rf a b ->
+  match find (fun r => str_eqb (fl r) x) a, find (fun r => str_eqb (fl r) x) b with
+  | Some r, Some r' => Rf r r'
+  | None, None => True
+  | _, _ => False end.
+Proof.
+  induction 1 as [|r r' a b [Hl Hs] _ IH]; cbn [find]; [exact I|]. rewrite Hl.
+  destruct (str_eqb (fl r) x); [split; assumption | exact IH].
+Qed.
+
+Lemma mark_rel_sstate s s' x : mark_rel s s' ->
+  sstate_of x s' = sstate_of x s \/ (sstate_of x s <> None /\ sstate_of x s' = Some SPending).
+Proof.
+  intros [_ H]. pose proof (Forall2_find_s _ _ x H) as F. unfold sstate_of, find_step.
+  destruct (find _ (steps s)) as [r|], (find _ (steps s')) as [r'|]; try contradiction; [|left; reflexivity].
+  destruct F as [_ [F|F]]; [left | right]; rewrite F; [reflexivity | split; [discriminate | reflexivity]].
+Qed.
+
+Lemma frame_fstate s s' f : frame s s' ->
+  fstate_of f s' = fstate_of f s \/ (fstate_of f s <> None /\ fstate_of f s' = Some FOutdated).
+Proof.
+  intros [_ _ _ H]. pose proof (Forall2_find_f _ _ f H) as F. unfold fstate_of, find_file.
+  destruct (find _ (files s)) as [r|], (find _ (files s')) as [r'|]; try contradiction; [|left; reflexivity].
+  destruct F as [_ [F|F]]; [left | right]; rewrite F; [reflexivity | split; [discriminate | reflexivity]].
+Qed.
+
+Lemma frame_is_detached s s' k : frame s s' -> is_detached k s' = is_detached k s.
+Proof. intros [H _ _ _]. unfold is_detached, find_node. rewrite H. reflexivity. Qed.
+Lemma frame_has_hash s s' l : frame s s' -> has_hash l s' = has_hash l s.
+Proof. intros [_ _ H _]. unfold has_hash. rewrite H. reflexivity. Qed.
+
+(* ------------------------------------------------------------------------------------------ *)
+(* reset_interrupted_steps                                                                     *)
+(* ------------------------------------------------------------------------------------------ *)
+Definition sweep (sel : sstate -> bool) (new : sstate) (L : list srow) (s : st) : res st :=
+  foldM (fun s r => if sel (sst r) then set_sstate_raw (sl r) new s else Ok s) L s.
+
+Definition is_running (x : sstate) : bool := match x with SRunning => true | _ => false end.
+Definition is_checking (x : sstate) : bool := match x with SChecking => true | _ => false end.
+
+Definition pend_failed (L : list srow) (s : st) : res st :=
+  foldM (fun s r => match sstate_of (sl r) s with
+                    | Some SFailed => if is_detached (KStep, sl r) s then Ok s else mark_step_pending (sl r) s
+                    | _ => Ok s end) L s.
+
+Lemma reset_interrupted_unfold s :
+  reset_interrupted s =
+  (do s1 <- sweep is_running SFailed (steps s) s;
+   do s2 <- sweep is_checking SPending (steps s1) s1;
+   pend_failed (steps s2) s2).
+Proof.
+  unfold reset_interrupted, sweep, pend_failed.
+  rewrite (foldM_ext _ (fun s r => if is_running (sst r) then set_sstate_raw (sl r) SFailed s else Ok s));
+    [|intros s0 r _; destruct (sst r); reflexivity].
+  destruct (foldM _ (steps s) s) as [s1|t|t]; cbn [bind]; try reflexivity.
+  rewrite (foldM_ext _ (fun s r => if is_checking (sst r) then set_sstate_raw (sl r) SPending s else Ok s));
+    [|intros s0 r _; destruct (sst r); reflexivity].
+  reflexivity.
+Qed.
+
+(* a sweep changes states only to [new]; everything else is untouched *)
+Lemma sweep_spec sel new L : forall s s', sweep sel new L s = Ok s' ->
+  frame s s' /\ map sl (steps s') = map sl (steps s) /\
+  (forall x, sstate_of x s' = sstate_of x s \/ (sstate_of x s <> None /\ sstate_of x s' = Some new)).
+Proof.
+  induction L as [|r L IH]; intros s s' H; unfold sweep in *; cbn [foldM] in H.
+  - inversion H. subst. split; [apply frame_refl|]. split; [reflexivity|]. intros x. left. reflexivity.
+  - apply bind_ok in H. destruct H as [s1 [H1 H2]]. apply IH in H2. destruct H2 as [F2 [L2 S2]].
+    destruct (sel (sst r)).
+    + apply set_sstate_raw_spec in H1. destruct H1 as [F1 [L1 S1]].
+      split; [eapply frame_trans; eassumption|]. split; [congruence|]. intros x.
+      specialize (S1 x). specialize (S2 x). destruct (str_eqb x (sl r)).
+      * destruct (sstate_of x s) as [o|] eqn:Eo.
+        -- right. split; [discriminate|]. destruct S2 as [S2|[_ S2]]; rewrite S2; [exact S1 | reflexivity].
+        -- left. destruct S2 as [S2|[S2 _]]; [congruence | rewrite S1 in S2; contradiction].
+      * rewrite S1 in S2. exact S2.
+    + inversion H1. subst s1. split; [exact F2|]. split; [exact L2|]. exact S2.
+Qed.
+
+(* a row of the swept list that is selected ends in state [new] *)
+Lemma sweep_hits sel new L : forall s s' r, sweep sel new L s = Ok s' ->
+  In r L -> sel (sst r) = true -> sstate_of (sl r) s <> None -> sstate_of (sl r) s' = Some new.
+Proof.
+  induction L as [|r0 L IH]; intros s s' r H Hin Hsel Hsome; [destruct Hin|].
+  unfold sweep in H. cbn [foldM] in H. apply bind_ok in H. destruct H as [s1 [H1 H2]].
+  destruct Hin as [Heq | Hin].
+  - subst r0. rewrite Hsel in H1. apply set_sstate_raw_spec in H1. destruct H1 as [_ [_ S1]].
+    specialize (S1 (sl r)). rewrite str_eqb_refl in S1.
+    destruct (sstate_of (sl r) s) eqn:E; [|contradiction].
+    apply sweep_spec in H2. destruct H2 as [_ [_ S2]]. specialize (S2 (sl r)).
+    destruct S2 as [S2|[_ S2]]; rewrite S2; [exact S1 | reflexivity].
+  - apply (IH s1 s' r H2 Hin Hsel).
+    destruct (sel (sst r0)).
+    + apply set_sstate_raw_spec in H1. destruct H1 as [_ [_ S1]]. rewrite S1.
+      destruct (str_eqb (sl r) (sl r0)); [|exact Hsome]. destruct (sstate_of (sl r) s); [discriminate | contradiction].
+    + inversion H1. subst. exact Hsome.
+Qed.
+
+(* no row keeps a selected state, when the swept list is the step table itself *)
+Lemma sweep_rows sel new L : sel new = false -> forall s s', sweep sel new L s = Ok s' ->
+  (forall r', In r' (steps s) -> sel (sst r') = true -> exists r, In r L /\ sl r = sl r' /\ sel (sst r) = true) ->
+  forall r', In r' (steps s') -> sel (sst r') = false.
+Proof.
+  intros Hnew. induction L as [|r0 L IH]; intros s s' H Hcov r' Hin.
+  - unfold sweep in H. cbn [foldM] in H. inversion H. subst s'.
+    destruct (sel (sst r')) eqn:E; [|reflexivity]. destruct (Hcov r' Hin E) as [r [[] _]].
+  - unfold sweep in H. cbn [foldM] in H. apply bind_ok in H. destruct H as [s1 [H1 H2]].
+    apply (IH s1 s' H2); [|exact Hin]. clear IH H2 Hin r'. intros r1 Hin1 Hs1.
+    destruct (sel (sst r0)) eqn:E0.
+    + unfold set_sstate_raw, set_sstate in H1. destruct (find_step (sl r0) s) as [rr|] eqn:Ef.
+      * destruct (sdef rr && negb (sstate_eqb new SPending)); [discriminate|]. inversion H1. subst s1. clear H1.
+        cbn [steps upd_step set_steps] in Hin1. apply in_map_iff in Hin1. destruct Hin1 as [q [Hq Hinq]].
+        destruct (str_eqb (sl q) (sl r0)) eqn:Eq.
+        -- subst r1. cbn [sst] in Hs1. congruence.
+        -- subst r1. destruct (Hcov q Hinq Hs1) as [r [[Hr|Hr] [Hl Hs]]].
+           ++ subst r. rewrite Hl, str_eqb_refl in Eq. discriminate.
+           ++ exists r. repeat split; assumption.
+      * inversion H1. subst s1. destruct (Hcov r1 Hin1 Hs1) as [r [[Hr|Hr] [Hl Hs]]].
+        -- subst r. exfalso. unfold find_step in Ef.
+           apply (find_none _ _ Ef) in Hin1. rewrite Hl, str_eqb_refl in Hin1. discriminate.
+        -- exists r. repeat split; assumption.
+    + inversion H1. subst s1. destruct (Hcov r1 Hin1 Hs1) as [r [[Hr|Hr] [Hl Hs]]].
+      * subst r. congruence.
+      * exists r. repeat split; assumption.
+Qed.
+
+Lemma pend_failed_rel L : forall s s', pend_failed L s = Ok s' -> mark_rel s s'.
+Proof.
+  unfold pend_failed. intros s s'. apply foldM_rel; [apply mark_rel_refl | apply mark_rel_trans|].
+  intros s0 r s0' _ H. destruct (sstate_of (sl r) s0) as [[]|]; try (inversion H; subst; apply mark_rel_refl).
+  destruct (is_detached (KStep, sl r) s0); [inversion H; subst; apply mark_rel_refl|].
+  apply mark_step_pending_rel in H. exact H.
+Qed.
+
+Lemma mark_step_pending_failed l s s' :
+  mark_step_pending l s = Ok s' -> sstate_of l s = Some SFailed -> sstate_of l s' = Some SPending.
+Proof.
+  unfold mark_step_pending, fuel_of. intros H Hf. cbn [mark_step_pending_f] in H. rewrite Hf in H.
+  apply bind_ok in H. destruct H as [s1 [H1 H2]].
+  pose proof (sstate_of_set _ _ _ _ _ H1 l) as S1. rewrite str_eqb_refl, Hf in S1.
+  assert (R : mark_rel s1 s').
+  { revert H2. apply foldM_rel; [apply mark_rel_refl | apply mark_rel_trans|].
+    intros s0 f s0' _ H0. destruct (fstate_of f s0) as [[]|]; try (inversion H0; subst; apply mark_rel_refl).
+    eapply (proj2 (mark_effect _)). exact H0. }
+  destruct (mark_rel_sstate _ _ l R) as [E|[_ E]]; rewrite E; [exact S1 | reflexivity].
+Qed.
+
+(* an attached FAILED step that occurs in the list ends PENDING *)
+Lemma pend_failed_hits L l : forall s s', pend_failed L s = Ok s' ->
+  (exists r, In r L /\ sl r = l) -> is_detached (KStep, l) s = false ->
+  (sstate_of l s = Some SFailed \/ sstate_of l s = Some SPending) -> sstate_of l s' = Some SPending.
+Proof.
+  induction L as [|r0 L IH]; intros s s' H [r [Hin Hl]] Hdet Hst; [destruct Hin|].
+  unfold pend_failed in H. cbn [foldM] in H. apply bind_ok in H. destruct H as [s1 [H1 H2]].
+  assert (R1 : mark_rel s s1).
+  { destruct (sstate_of (sl r0) s) as [[]|]; try (inversion H1; subst; apply mark_rel_refl).
+    destruct (is_detached (KStep, sl r0) s); [inversion H1; subst; apply mark_rel_refl|].
+    apply mark_step_pending_rel in H1. exact H1. }
+  pose proof (pend_failed_rel L s1 s' H2) as R2.
+  assert (Hkeep : sstate_of l s1 = Some SPending -> sstate_of l s' = Some SPending).
+  { intros E. destruct (mark_rel_sstate _ _ l R2) as [E2|[_ E2]]; rewrite E2; [exact E | reflexivity]. }
+  destruct Hin as [Heq | Hin].
+  - subst r0. rewrite Hl in H1. destruct Hst as [Hst|Hst]; rewrite Hst in H1.
+    + rewrite Hdet in H1. apply Hkeep. eapply mark_step_pending_failed; eassumption.
+    + inversion H1. subst s1. apply Hkeep. exact Hst.
+  - apply (IH s1 s' H2); [exists r; split; assumption | |].
+    + rewrite (frame_is_detached _ _ _ (mr_frame _ _ R1)). exact Hdet.
+    + destruct (mark_rel_sstate _ _ l R1) as [E|[_ E]]; [rewrite E; exact Hst | right; exact E].
+Qed.
+
+Lemma nodup_find_step (l : list srow) (r : srow) :
+  nodup_by str_eqb (map sl l) = true -> In r l -> find (fun m => str_eqb (sl m) (sl r)) l = Some r.
+Proof.
+  induction l as [|m l IH]; intros Hnd Hin; [destruct Hin|].
+  cbn [map nodup_by] in Hnd. apply andb_true_iff in Hnd. destruct Hnd as [Hm Hnd].
+  cbn [find]. destruct Hin as [Heq | Hin].
+  - subst. rewrite str_eqb_refl. reflexivity.
+  - destruct (str_eqb (sl m) (sl r)) eqn:E.
+    + exfalso. apply negb_true_iff in Hm.
+      assert (X : existsb (str_eqb (sl m)) (map sl l) = true).
+      { apply existsb_exists. exists (sl r). split; [apply in_map; exact Hin | exact E]. }
+      rewrite X in Hm. discriminate.
+    + apply IH; assumption.
+Qed.
+
+Lemma is_running_false_iff x : is_running x = false <-> x <> SRunning.
+Proof. destruct x; cbn; split; intro H; try reflexivity; try discriminate; try (intro; discriminate); contradiction. Qed.
+Lemma is_checking_false_iff x : is_checking x = false <-> x <> SChecking.
+Proof. destruct x; cbn; split; intro H; try reflexivity; try discriminate; try (intro; discriminate); contradiction. Qed.
+
+Lemma mark_rel_rows (P : sstate -> bool) s s' : P SPending = true -> mark_rel s s' ->
+  (forall r, In r (steps s) -> P (sst r) = true) -> forall r', In r' (steps s') -> P (sst r') = true.
+Proof.
+  intros HP [_ H] Hall. induction H as [|r r' a b [_ Hs] _ IH]; intros q Hq; [destruct Hq|].
+  destruct Hq as [Hq|Hq].
+  - subst q. destruct Hs as [Hs|Hs]; rewrite Hs; [apply Hall; left; reflexivity | exact HP].
+  - apply IH; [|exact Hq]. intros x Hx. apply Hall. right. exact Hx.
+Qed.
+
+(* Theorem 2.  After reset_interrupted_steps:
+   (a) no step row is RUNNING or CHECKING;
+   (b) nothing but step states and (through mark_step_pending) BUILT -> OUTDATED file states
+       changed: nodes, edges, stored hashes are the same;
+   (c) a step that was RUNNING is PENDING, or FAILED when it is detached;
+   (d) a step that was CHECKING is PENDING and keeps its stored hash. *)
+Theorem reset_interrupted_post s s' :
+  nodup_by str_eqb (map sl (steps s)) = true ->
+  reset_interrupted s = Ok s' ->
+  no_running_checking_b s' = true /\
+  frame s s' /\
+  (forall l, sstate_of l s = Some SRunning ->
+     sstate_of l s' = Some SPending \/ (sstate_of l s' = Some SFailed /\ is_detached (KStep, l) s = true)) /\
+  (forall l, sstate_of l s = Some SChecking -> sstate_of l s' = Some SPending /\ has_hash l s' = has_hash l s).
+Proof.
+  intros Hnd H. rewrite reset_interrupted_unfold in H.
+  apply bind_ok in H. destruct H as [s1 [H1 H]]. apply bind_ok in H. destruct H as [s2 [H2 H3]].
+  pose proof (sweep_spec _ _ _ _ _ H1) as [F1 [L1 S1]].
+  pose proof (sweep_spec _ _ _ _ _ H2) as [F2 [L2 S2]].
+  pose proof (pend_failed_rel _ _ _ H3) as R3.
+  assert (F : frame s s').
+  { eapply frame_trans; [exact F1|]. eapply frame_trans; [exact F2 | exact (mr_frame _ _ R3)]. }
+  assert (Hnd1 : nodup_by str_eqb (map sl (steps s1)) = true) by (rewrite L1; exact Hnd).
+  (* rows *)
+  assert (Rows1 : forall r, In r (steps s1) -> is_running (sst r) = false).
+  { apply (sweep_rows is_running SFailed (steps s) eq_refl s s1 H1).
+    intros r' Hin Hs. exists r'. repeat split; assumption. }
+  assert (Rows2c : forall r, In r (steps s2) -> is_checking (sst r) = false).
+  { apply (sweep_rows is_checking SPending (steps s1) eq_refl s1 s2 H2).
+    intros r' Hin Hs. exists r'. repeat split; assumption. }
+  assert (Rows2r : forall r, In r (steps s2) -> is_running (sst r) = false).
+  { (* the second sweep only writes PENDING *)
+    intros r Hin. destruct (is_running (sst r)) eqn:E; [|reflexivity]. exfalso.
+    assert (Hst : sstate_of (sl r) s2 = Some (sst r)).
+    { unfold sstate_of, find_step. rewrite (nodup_find_step (steps s2) r); [reflexivity | rewrite L2; exact Hnd1 | exact Hin]. }
+    destruct (S2 (sl r)) as [E2|[_ E2]].
+    - rewrite Hst in E2. symmetry in E2. unfold sstate_of in E2.
+      destruct (find_step (sl r) s1) as [q|] eqn:Eq; [|discriminate]. inversion E2.
+      unfold find_step in Eq. apply find_some in Eq. destruct Eq as [Hq _].
+      specialize (Rows1 q Hq). congruence.
+    - rewrite Hst in E2. inversion E2 as [E3]. rewrite E3 in E. discriminate. }
+  split; [|split; [exact F|split]].
+  - unfold no_running_checking_b. apply forallb_forall. intros r Hin.
+    pose proof (mark_rel_rows (fun x => negb (is_running x) && negb (is_checking x)) s2 s' eq_refl R3) as HR.
+    cbv beta in HR. assert (X : negb (is_running (sst r)) && negb (is_checking (sst r)) = true).
+    { apply HR; [|exact Hin]. intros q Hq. rewrite (Rows2r q Hq), (Rows2c q Hq). reflexivity. }
+    destruct (sst r); cbn in X |- *; try reflexivity; discriminate.
+  - (* was RUNNING *)
+    intros l Hl. unfold sstate_of in Hl. destruct (find_step l s) as [r|] eqn:Er; [|discriminate].
+    inversion Hl as [Hr]. unfold find_step in Er. apply find_some in Er. destruct Er as [Hin El].
+    apply str_eqb_eq in El. subst l.
+    assert (E1 : sstate_of (sl r) s1 = Some SFailed).
+    { eapply sweep_hits; [exact H1 | exact Hin | rewrite Hr; reflexivity|].
+      unfold sstate_of, find_step. rewrite (nodup_find_step (steps s) r Hnd Hin). discriminate. }
+    assert (E2 : sstate_of (sl r) s2 = Some SFailed).
+    { destruct (S2 (sl r)) as [E|[_ E]]; [rewrite E; exact E1|]. exfalso.
+      (* the second sweep would have had to select a row with this label *)
+      clear - H2 E E1 Hnd1.
+      assert (G : forall L s0 s0', sweep is_checking SPending L s0 = Ok s0' ->
+                    (forall q, In q L -> sl q = sl r -> is_checking (sst q) = false) ->
+                    sstate_of (sl r) s0' = sstate_of (sl r) s0).
+      { induction L as [|q L IH]; intros s0 s0' HH Hno; unfold sweep in HH; cbn [foldM] in HH.
+        - inversion HH. reflexivity.
+        - apply bind_ok in HH. destruct HH as [sx [Hx Hy]].
+          rewrite (IH sx s0' Hy); [|intros q' Hq'; apply Hno; right; exact Hq'].
+          destruct (is_checking (sst q)) eqn:Eq; [|inversion Hx; reflexivity].
+          apply set_sstate_raw_spec in Hx. destruct Hx as [_ [_ Sx]]. rewrite Sx.
+          destruct (str_eqb (sl r) (sl q)) eqn:Eqq; [|reflexivity].
+          apply str_eqb_eq in Eqq. rewrite (Hno q (or_introl eq_refl) (eq_sym Eqq)) in Eq. discriminate. }
+      rewrite (G (steps s1) s1 s2 H2) in E; [congruence|].
+      intros q Hq Hlq. unfold sstate_of, find_step in E1. rewrite <- Hlq in E1.
+      rewrite (nodup_find_step (steps s1) q Hnd1 Hq) in E1. inversion E1 as [E3]. rewrite E3. reflexivity. }
+    destruct (is_detached (KStep, sl r) s) eqn:Ed.
+    + destruct (mark_rel_sstate _ _ (sl r) R3) as [E|[_ E]]; [right | left; exact E].
+      split; [rewrite E; exact E2 | reflexivity].
+    + left. eapply pend_failed_hits; [exact H3 | | | left; exact E2].
+      * unfold sstate_of in E2. destruct (find_step (sl r) s2) as [q|] eqn:Eq; [|discriminate].
+        unfold find_step in Eq. apply find_some in Eq. destruct Eq as [Hq Elq]. apply str_eqb_eq in Elq.
+        exists q. split; assumption.
+      * rewrite (frame_is_detached _ _ _ F2), (frame_is_detached _ _ _ F1). exact Ed.
+  - (* was CHECKING *)
+    intros l Hl. split; [|apply frame_has_hash; exact F].
+    unfold sstate_of in Hl. destruct (find_step l s) as [r|] eqn:Er; [|discriminate].
+    inversion Hl as [Hr]. unfold find_step in Er. apply find_some in Er. destruct Er as [Hin El].
+    apply str_eqb_eq in El. subst l.
+    assert (E1 : sstate_of (sl r) s1 = Some SChecking).
+    { destruct (S1 (sl r)) as [E|[_ E]].
+      - rewrite E. unfold sstate_of, find_step. rewrite (nodup_find_step (steps s) r Hnd Hin), Hr. reflexivity.
+      - exfalso. (* the first sweep only touches labels of RUNNING rows *)
+        assert (G : forall L s0 s0', sweep is_running SFailed L s0 = Ok s0' ->
+                      (forall q, In q L -> sl q = sl r -> is_running (sst q) = false) ->
+                      sstate_of (sl r) s0' = sstate_of (sl r) s0).
+        { induction L as [|q L IH]; intros s0 s0' HH Hno; unfold sweep in HH; cbn [foldM] in HH.
+          - inversion HH. reflexivity.
+          - apply bind_ok in HH. destruct HH as [sx [Hx Hy]].
+            rewrite (IH sx s0' Hy); [|intros q' Hq'; apply Hno; right; exact Hq'].
+            destruct (is_running (sst q)) eqn:Eq; [|inversion Hx; reflexivity].
+            apply set_sstate_raw_spec in Hx. destruct Hx as [_ [_ Sx]]. rewrite Sx.
+            destruct (str_eqb (sl r) (sl q)) eqn:Eqq; [|reflexivity].
+            apply str_eqb_eq in Eqq. rewrite (Hno q (or_introl eq_refl) (eq_sym Eqq)) in Eq. discriminate. }
+        rewrite (G (steps s) s s1 H1) in E.
+        + unfold sstate_of, find_step in E. rewrite (nodup_find_step (steps s) r Hnd Hin), Hr in E. discriminate.
+        + intros q Hq Hlq. pose proof (nodup_find_step (steps s) q Hnd Hq) as Fq. rewrite Hlq in Fq.
+          rewrite (nodup_find_step (steps s) r Hnd Hin) in Fq. inversion Fq. subst q. rewrite Hr. reflexivity. }
+    assert (E2 : sstate_of (sl r) s2 = Some SPending).
+    { unfold sstate_of in E1. destruct (find_step (sl r) s1) as [q|] eqn:Eq; [|discriminate].
+      inversion E1 as [Hq]. unfold find_step in Eq. apply find_some in Eq. destruct Eq as [Hinq Elq].
+      apply str_eqb_eq in Elq. rewrite <- Elq.
+      eapply sweep_hits; [exact H2 | exact Hinq | rewrite Hq; reflexivity|].
+      unfold sstate_of, find_step. rewrite (nodup_find_step (steps s1) q Hnd1 Hinq). discriminate. }
+    destruct (mark_rel_sstate _ _ (sl r) R3) as [E|[_ E]]; rewrite E; [exact E2 | reflexivity].
+Qed.
+
+(* ------------------------------------------------------------------------------------------ *)
+(* Outputs of interrupted steps                                                                *)
+(* ------------------------------------------------------------------------------------------ *)
+Lemma frame_built s s' f : frame s s' -> fstate_of f s' = Some FBuilt -> fstate_of f s = Some FBuilt.
+Proof.
+  intros F H. destruct (frame_fstate _ _ f F) as [E|[_ E]]; [rewrite <- E; exact H | rewrite E in H; discriminate].
+Qed.
+
+Lemma frame_products s s' k : frame s s' -> products k s' = products k s.
+Proof. intros [H _ _ _]. unfold products. rewrite H. reflexivity. Qed.
+
+Lemma map_filter_nil {A B} (g : A -> B) (p q : A -> bool) l :
+  (forall x, In x l -> q x = true -> p x = true) -> map g (filter p l) = [] -> map g (filter q l) = [].
+Proof.
+  intros H. induction l as [|x l IH]; intros E; [reflexivity|]. cbn [filter] in *.
+  destruct (q x) eqn:Eq.
+  - rewrite (H x (or_introl eq_refl) Eq) in E. discriminate.
+  - apply IH; [intros y Hy; apply H; right; exact Hy|].
+    destruct (p x); [discriminate | exact E].
+Qed.
+
+(* a frame (in particular reset_interrupted_steps) never makes a product BUILT *)
+Lemma frame_built_products s s' l : frame s s' -> built_products l s = [] -> built_products l s' = [].
+Proof.
+  intros F. unfold built_products, file_products_in. rewrite (frame_products _ _ _ F).
+  apply map_filter_nil. intros k _ H. apply andb_true_iff in H. destruct H as [Hk H].
+  rewrite Hk. cbn [andb]. destruct (fstate_of (snd k) s') as [x|] eqn:E; [|discriminate].
+  destruct x; try discriminate. rewrite (frame_built _ _ _ F E). reflexivity.
+Qed.
+
+Lemma fstate_of_set_outdated f s s' : set_fstate f FOutdated s = Ok s' ->
+  fstate_of f s <> None -> fstate_of f s' = Some FOutdated.
+Proof.
+  unfold set_fstate, set_fstate_hash, fstate_of. destruct (find_file f s) as [r|] eqn:E; [|intros _ H; contradiction].
+  destruct (needs_hash FOutdated && _); [discriminate|].
+  destruct (fstate_eqb FOutdated FUndeclared && _); [discriminate|]. intros H _. inversion H. subst s'.
+  unfold find_file, upd_file. cbn [files set_files].
+  rewrite (find_map_upd fl); [|intros r0; destruct (str_eqb (fl r0) f); reflexivity].
+  unfold find_file in E. rewrite E. pose proof (find_some _ _ E) as [_ El]. rewrite El. reflexivity.
+Qed.
+
+Lemma mark_file_outdated_spec f s s' : mark_file_outdated f s = Ok s' ->
+  mark_rel s s' /\ fstate_of f s' = Some FOutdated.
+Proof.
+  unfold mark_file_outdated, fuel_of. intros H. split; [eapply (proj2 (mark_effect _)); exact H|].
+  cbn [mark_file_outdated_f] in H. destruct (fstate_of f s) as [[]|] eqn:E; try discriminate.
+  - apply bind_ok in H. destruct H as [s1 [H1 H2]].
+    assert (E1 : fstate_of f s1 = Some FOutdated) by (eapply fstate_of_set_outdated; [exact H1 | rewrite E; discriminate]).
+    assert (R : mark_rel s1 s').
+    { revert H2. apply foldM_rel; [apply mark_rel_refl | apply mark_rel_trans|].
+      intros s0 l s0' _ H0. eapply (proj1 (mark_effect _)). exact H0. }
+    destruct (frame_fstate _ _ f (mr_frame _ _ R)) as [E2|[_ E2]]; rewrite E2; [exact E1 | reflexivity].
+  - inversion H. subst. exact E.
+Qed.
+
+Lemma outdate_all L : forall s s', foldM (fun s f => mark_file_outdated f s) L s = Ok s' ->
+  mark_rel s s' /\ forall f, In f L -> fstate_of f s' = Some FOutdated.
+Proof.
+  induction L as [|f0 L IH]; intros s s' H; cbn [foldM] in H.
+  - inversion H. subst. split; [apply mark_rel_refl | intros f []].
+  - apply bind_ok in H. destruct H as [s1 [H1 H2]]. apply mark_file_outdated_spec in H1. destruct H1 as [R1 E1].
+    apply IH in H2. destruct H2 as [R2 E2]. split; [eapply mark_rel_trans; eassumption|].
+    intros f [Hf|Hf]; [subst f0|apply E2; exact Hf].
+    destruct (frame_fstate _ _ f (mr_frame _ _ R2)) as [E|[_ E]]; rewrite E; [exact E1 | reflexivity].
+Qed.
+
+(* reset_for_rerun, committed before the command starts, leaves no product of the step BUILT *)
+Lemma reset_for_rerun_post l s s' : reset_for_rerun l s = Ok s' -> built_products l s' = [].
+Proof.
+  unfold reset_for_rerun. intros H.
+  repeat (apply bind_ok in H; let sx := fresh "sx" in let Hx := fresh "Hx" in destruct H as [sx [Hx H]]).
+  apply outdate_all in H. destruct H as [R E].
+  unfold built_products, file_products_in at 1. rewrite (frame_products _ _ _ (mr_frame _ _ R)).
+  match goal with |- map snd (filter ?q ?L) = [] =>
+    destruct (filter q L) as [|k rest] eqn:Ef; [reflexivity|] end. exfalso.
+  assert (Hk : In k (k :: rest)) by (left; reflexivity). rewrite <- Ef in Hk. apply filter_In in Hk.
+  destruct Hk as [Hin Hk]. apply andb_true_iff in Hk. destruct Hk as [Hkind Hb].
+  destruct (fstate_of (snd k) s') as [x|] eqn:Ex; [|discriminate]. destruct x; try discriminate.
+  pose proof (frame_built _ _ _ (mr_frame _ _ R) Ex) as Eb.
+  assert (Hl : In (snd k) (file_products_in l is_built sx2)).
+  { unfold file_products_in. apply in_map. apply filter_In. split; [exact Hin|]. rewrite Hkind, Eb. reflexivity. }
+  rewrite (E _ Hl) in Ex. discriminate.
+Qed.
+
+Lemma running_row s l : sstate_of l s = Some SRunning ->
+  exists r, In r (steps s) /\ sl r = l /\ sst r = SRunning.
+Proof.
+  unfold sstate_of. destruct (find_step l s) as [r|] eqn:E; [|discriminate]. intros H. inversion H.
+  unfold find_step in E. apply find_some in E. destruct E as [Hin El]. apply str_eqb_eq in El.
+  exists r. repeat split; assumption.
+Qed.
+
+(* Theorem 2, second half: what a restart knows about a step that was RUNNING.
+   [inv_running_nohash_b] is I5c of GraphInv.v (a RUNNING step has no stored hash);
+   [built_products l s = []] is what reset_for_rerun established before the command started
+   (reset_for_rerun_post) -- both are facts about the crashed state. *)
+Theorem interrupted_outputs_not_up_to_date s s' l :
+  nodup_by str_eqb (map sl (steps s)) = true -> inv_running_nohash_b s = true ->
+  reset_interrupted s = Ok s' -> sstate_of l s = Some SRunning -> built_products l s = [] ->
+  has_hash l s' = false /\ built_products l s' = [] /\
+  (sstate_of l s' = Some SPending \/ sstate_of l s' = Some SFailed).
+Proof.
+  intros Hnd Hnh H Hl Hb. destruct (reset_interrupted_post s s' Hnd H) as [_ [F [HR _]]].
+  split; [|split].
+  - rewrite (frame_has_hash _ _ _ F). destruct (running_row s l Hl) as [r [Hin [El Er]]].
+    unfold inv_running_nohash_b in Hnh. rewrite forallb_forall in Hnh. specialize (Hnh r Hin).
+    rewrite Er, El in Hnh. cbn in Hnh. apply negb_true_iff in Hnh. exact Hnh.
+  - apply (frame_built_products _ _ _ F Hb).
+  - destruct (HR l Hl) as [E|[E _]]; [left | right]; exact E.
+Qed.
+
+(* operations of other jobs that only move states (dispatch, validate, mark pending, hold,
+   release) keep the two facts about a started step *)
+Lemma started_kept_by_frame s s' l : frame s s' ->
+  has_hash l s = false -> built_products l s = [] -> has_hash l s' = false /\ built_products l s' = [].
+Proof. intros F H1 H2. split; [rewrite (frame_has_hash _ _ _ F); exact H1 | apply (frame_built_products _ _ _ F H2)]. Qed.
+
+Lemma upd_step_frame l g s : frame s (upd_step l g s).
+Proof. constructor; try reflexivity. cbn. apply Forall2_refl. apply Rf_refl. Qed.
+
+Lemma state_only_ops_frame o s s' :
+  match o with OpDispatch _ | OpValidatePending _ | OpMarkStepPending _ | OpHold _ | OpRelease _ => True | _ => False end ->
+  step_op o s = Ok s' -> frame s s'.
+Proof.
+  destruct o; intros Hk H; try contradiction; cbn [step_op] in H.
+  - apply set_sstate_frame in H. apply H.
+  - apply set_sstate_frame in H. apply H.
+  - apply mark_step_pending_rel in H. apply H.
+  - unfold hold in H. destruct (negb _); [discriminate|]. inversion H. apply upd_step_frame.
+  - unfold release in H. destruct (find_step label s); [|discriminate].
+    destruct (shold s0 =? 0); [discriminate|]. inversion H. apply upd_step_frame.
+Qed.
+
+(* ------------------------------------------------------------------------------------------ *)
+(* 4. Orphans                                                                                  *)
+(* ------------------------------------------------------------------------------------------ *)
+Lemma same_paths_refl d : same_paths d d = true.
+Proof.
+  unfold same_paths. assert (X : forallb (fun p => mem_str p (disk_paths d)) (disk_paths d) = true).
+  { apply forallb_forall. intros p Hp. unfold mem_str. apply existsb_exists. exists p. split; [exact Hp | apply str_eqb_refl]. }
+  rewrite X. reflexivity.
+Qed.
+
+(* a kill before the first cleanup transaction commits loses nothing: the restarted build
+   recomputes the same queue from the same graph *)
+Theorem crash_no_orphans_W0 opt x : no_orphans_at W0 opt x.
+Proof.
+  unfold no_orphans_at, crash_then_restart. cbn [cleanup_until bind]. intros y z H1 H2.
+  rewrite H1 in H2. inversion H2. apply same_paths_refl.
+Qed.
+
+Lemma no_orphans_b_spec w opt x : no_orphans_at w opt x <-> no_orphans_b w opt x = true.
+Proof.
+  unfold no_orphans_at, no_orphans_b. split.
+  - intros H. destruct (cleanup opt x) as [y|t|t]; try reflexivity.
+    destruct (crash_then_restart w opt x) as [z|t|t]; try reflexivity. apply H; reflexivity.
+  - intros H y z H1 H2. rewrite H1, H2 in H. exact H.
+Qed.
+
+(* D6: kill after the delete_detached transaction committed, before the files were removed *)
+Theorem crash_no_orphans_refuted_W2 :
+  exists opt x, inv_b (g x) = true /\ inv_succeeded_b (g x) = true /\ ~ no_orphans_at W2 opt x.
+Proof.
+  exists [], d6_sys. split; [vm_compute; reflexivity|]. split; [vm_compute; reflexivity|].
+  rewrite no_orphans_b_spec. assert (E : no_orphans_b W2 [] d6_sys = false) by (vm_compute; reflexivity).
+  rewrite E. discriminate.
+Qed.
+
+(* D6b: kill after the revert_optional_steps transaction committed *)
+Theorem crash_no_orphans_refuted_W1 :
+  exists opt x, inv_b (g x) = true /\ inv_succeeded_b (g x) = true /\ ~ no_orphans_at W1 opt x.
+Proof.
+  exists [s_o], d6b_sys. split; [vm_compute; reflexivity|]. split; [vm_compute; reflexivity|].
+  rewrite no_orphans_b_spec. assert (E : no_orphans_b W1 [s_o] d6b_sys = false) by (vm_compute; reflexivity).
+  rewrite E. discriminate.
+Qed.
+
+(* on the two witnesses the other windows are clean: the defect is exactly the lost queue *)
+Lemma witnesses_clean_W3 : no_orphans_at W3 [] d6_sys /\ no_orphans_at W3 [s_o] d6b_sys.
+Proof. split; apply no_orphans_b_spec; vm_compute; reflexivity. Qed.
+
+(* Everything the uninterrupted cleanup removes is, before its first transaction, a file row of
+   the stored graph in state VOLATILE, BUILT or OUTDATED: the queue is a function of the graph
+   that the restarted build still has (W0); after the commits the rows are PLANNED or gone. *)
+Lemma omap_In {A B} (f : A -> option B) l y : In y (omap f l) -> exists x, In x l /\ f x = Some y.
+Proof.
+  induction l as [|x l IH]; cbn [omap]; [intros []|]. destruct (f x) as [b|] eqn:E.
+  - intros [H|H]; [subst; exists x; split; [left; reflexivity | exact E]|].
+    destruct (IH H) as [x' [Hin Hf]]. exists x'. split; [right; exact Hin | exact Hf].
+  - intros H. destruct (IH H) as [x' [Hin Hf]]. exists x'. split; [right; exact Hin | exact Hf].
+Qed.
+
+Lemma queue_entry_row r e : queue_entry r = Some e ->
+  fst e = fl r /\ (fstt r = FVolatile \/ fstt r = FBuilt \/ fstt r = FOutdated).
+Proof.
+  unfold queue_entry. destruct (fstt r) eqn:E; try discriminate.
+  - destruct (fh r); [|discriminate]. intros H. inversion H. cbn. auto.
+  - destruct (fh r); [|discriminate]. intros H. inversion H. cbn. auto.
+  - intros H. inversion H. cbn. auto.
+Qed.
+
+Lemma revert_queue_recorded opt s s' q : revert_optional opt s = Ok (s', q) ->
+  forall e, In e q -> exists r, In r (files s) /\ fl r = fst e /\
+                                (fstt r = FVolatile \/ fstt r = FBuilt \/ fstt r = FOutdated) /\
+                                existsb (fun l => mem_str (fl r) (file_sinks_of_step l s)) opt = true.
+Proof.
+  unfold revert_optional. intros H. apply bind_ok in H. destruct H as [s1 [_ H]].
+  apply bind_ok in H. destruct H as [s2 [_ H]]. inversion H. subst. intros e He.
+  apply omap_In in He. destruct He as [r [Hin Hq]]. unfold optional_outputs in Hin. apply filter_In in Hin.
+  destruct Hin as [Hin Hopt]. apply queue_entry_row in Hq. destruct Hq as [Hl Hs].
+  exists r. repeat split; auto.
+Qed.
+
+Lemma dd_queue_recorded s s' q : delete_detached_q s = Ok (s', q) ->
+  forall e, In e q -> exists r, In r (files s) /\ fl r = fst e /\
+                                (fstt r = FVolatile \/ fstt r = FBuilt \/ fstt r = FOutdated) /\
+                                find_file (fl r) s' = None.
+Proof.
+  unfold delete_detached_q. intros H. apply bind_ok in H. destruct H as [s1 [_ H]]. inversion H. subst.
+  intros e He. apply omap_In in He. destruct He as [r [Hin Hq]]. unfold deleted_files in Hin.
+  apply filter_In in Hin. destruct Hin as [Hin Hgone]. apply queue_entry_row in Hq. destruct Hq as [Hl Hs].
+  exists r. repeat split; auto. destruct (find_file (fl r) s'); [discriminate | reflexivity].
+Qed.
+
+(* ------------------------------------------------------------------------------------------ *)
+(* 3. Stray UNCONFIRMED rows                                                                   *)
+(* ------------------------------------------------------------------------------------------ *)
+Definition Ru (P : str -> Prop) (r r' : frow) : Prop :=
+  fl r' = fl r /\ (fstt r' = FUnconfirmed -> fstt r = FUnconfirmed /\ P (fl r)).
+
+Lemma Rf_Ru r r' : Rf r r' -> Ru (fun _ => True) r r'.
+Proof. intros [Hl [H|H]]; split; try exact Hl; intros E; [rewrite <- H; auto | rewrite H in E; discriminate]. Qed.
+
+Lemma Forall2_impl {A} (R R' : A -> A -> Prop) a b : (forall x y, R x y -> R' x y) -> Forall2 R a b -> Forall2 R' a b.
+Proof. intros H F. induction F; constructor; auto. Qed.
+Lemma Forall2_trans_gen {A} (R1 R2 R3 : A -> A -> Prop) :
+  (forall x y z, R1 x y -> R2 y z -> R3 x z) ->
+  forall a b c, Forall2 R1 a b -> Forall2 R2 b c -> Forall2 R3 a c.
+Proof.
+  intros H a b c Hab. revert c. induction Hab; intros c Hbc; inversion Hbc; subst; constructor; eauto.
+Qed.
+Lemma Forall2_In_r {A} (R : A -> A -> Prop) a b y : Forall2 R a b -> In y b -> exists x, In x a /\ R x y.
+Proof.
+  induction 1 as [|x y0 a b Hxy _ IH]; intros Hin; [destruct Hin|]. destruct Hin as [E|Hin].
+  - subst. exists x. split; [left; reflexivity | exact Hxy].
+  - destruct (IH Hin) as [x' [Hx Hr]]. exists x'. split; [right; exact Hx | exact Hr].
+Qed.
+
+Lemma Ru_comp P Q a b c : Ru P a b -> Ru Q b c -> Ru (fun l => P l /\ Q l) a c.
+Proof.
+  intros [H1 H2] [H3 H4]. split; [congruence|]. intros E. destruct (H4 E) as [E2 HQ]. destruct (H2 E2) as [E1 HP].
+  split; [exact E1|]. rewrite H1 in HQ. split; assumption.
+Qed.
+
+Lemma transition_confirmed old k ns a : transition CConfirmed old k = Some (ns, a) -> ns <> FUnconfirmed.
+Proof. destruct old, k; cbn; intros H; inversion H; discriminate. Qed.
+
+Lemma Forall2_refl_in {A} (R : A -> A -> Prop) l : (forall x, In x l -> R x x) -> Forall2 R l l.
+Proof. induction l as [|x l IH]; intros H; constructor; [apply H; left; reflexivity | apply IH; intros y Hy; apply H; right; exact Hy]. Qed.
+
+Lemma set_fstate_hash_files p ns hh s s' : set_fstate_hash p ns hh s = Ok s' -> ns <> FUnconfirmed ->
+  nodes s' = nodes s /\ Forall2 (Ru (fun l => l <> p)) (files s) (files s').
+Proof.
+  unfold set_fstate_hash. destruct (find_file p s) as [r|] eqn:E.
+  - destruct (needs_hash ns && _); [discriminate|]. destruct (fstate_eqb ns FUndeclared && _); [discriminate|].
+    intros H Hns. inversion H. subst s'. split; [reflexivity|]. cbn. apply Forall2_map_r. intros x.
+    destruct (str_eqb (fl x) p) eqn:Ex.
+    + split; [reflexivity|]. cbn. intros C. contradiction.
+    + split; [reflexivity|]. intros C. split; [exact C|]. intros C2. subst p. rewrite str_eqb_refl in Ex. discriminate.
+  - intros H _. inversion H. subst. split; [reflexivity|]. apply Forall2_refl_in. intros x Hx. split; [reflexivity|].
+    intros C. split; [exact C|]. intros C2. subst p. unfold find_file in E.
+    apply (find_none _ _ E) in Hx. rewrite str_eqb_refl in Hx. discriminate.
+Qed.
+
+Lemma mark_consumers_pending_rel f s s' : mark_consumers_pending f s = Ok s' -> mark_rel s s'.
+Proof.
+  unfold mark_consumers_pending. apply foldM_rel; [apply mark_rel_refl | apply mark_rel_trans|].
+  intros s0 l s0' _ H. apply mark_step_pending_rel in H. exact H.
+Qed.
+Lemma handle_updated_file_rel l s s' : handle_updated_file l s = Ok s' -> mark_rel s s'.
+Proof.
+  unfold handle_updated_file. destruct (fstate_of l s) as [[]|]; intros H; try (inversion H; subst; apply mark_rel_refl).
+  - apply mark_consumers_pending_rel in H. exact H.
+  - destruct (step_creator_of_file l s); [apply mark_step_pending_rel in H; exact H | inversion H; subst; apply mark_rel_refl].
+  - destruct (step_creator_of_file l s); [apply mark_step_pending_rel in H; exact H | inversion H; subst; apply mark_rel_refl].
+Qed.
+Lemma handle_deleted_file_rel l s s' : handle_deleted_file l s = Ok s' -> mark_rel s s'.
+Proof.
+  unfold handle_deleted_file. intros H. apply bind_ok in H. destruct H as [s1 [H1 H2]].
+  apply mark_consumers_pending_rel in H2. eapply mark_rel_trans; [|exact H2].
+  destruct (fstate_of l s) as [[]|]; try (inversion H1; subst; apply mark_rel_refl).
+  destruct (step_creator_of_file l s); [apply mark_step_pending_rel in H1; exact H1 | inversion H1; subst; apply mark_rel_refl].
+Qed.
+
+Lemma mark_rel_Ru s s' : mark_rel s s' -> nodes s' = nodes s /\ Forall2 (Ru (fun _ => True)) (files s) (files s').
+Proof. intros [[H1 _ _ H2] _]. split; [exact H1|]. eapply Forall2_impl; [apply Rf_Ru | exact H2]. Qed.
+
+(* one application of a CONFIRMED hash result to path p *)
+Lemma confirm_one p h s s' : update_file_hashes CConfirmed [(p, h)] s = Ok s' ->
+  nodes s' = nodes s /\ Forall2 (Ru (fun l => l <> p)) (files s) (files s').
+Proof.
+  unfold update_file_hashes. intros H. apply bind_ok in H. destruct H as [plan [Hp H]].
+  cbn [foldM fst snd] in Hp. apply bind_ok in Hp. destruct Hp as [acc [Hp1 Hp2]]. inversion Hp2. subst acc. clear Hp2.
+  destruct (find_file p s) as [r|] eqn:Ef; [|discriminate].
+  destruct (transition CConfirmed (fstt r) (is_some h)) as [[ns act]|] eqn:Et; [|discriminate].
+  inversion Hp1. subst plan. clear Hp1. cbn [app foldM p_path p_state p_hash] in H.
+  apply bind_ok in H. destruct H as [s1 [H1 H]]. apply bind_ok in H1. destruct H1 as [s1' [H1 H1']].
+  inversion H1'. subst s1'. clear H1'.
+  apply set_fstate_hash_files in H1; [|eapply transition_confirmed; exact Et]. destruct H1 as [N1 F1].
+  cbv zeta in H. apply bind_ok in H. destruct H as [s2 [H2 H]]. apply bind_ok in H. destruct H as [s3 [H3 H4]].
+  assert (R2 : mark_rel s1 s2).
+  { revert H2. apply (foldM_rel mark_rel); [apply mark_rel_refl | apply mark_rel_trans|]. intros a b c _. apply handle_updated_file_rel. }
+  assert (R3 : mark_rel s2 s3).
+  { revert H3. apply (foldM_rel mark_rel); [apply mark_rel_refl | apply mark_rel_trans|]. intros a b c _. apply handle_deleted_file_rel. }
+  assert (R4 : mark_rel s3 s').
+  { revert H4. apply (foldM_rel mark_rel); [apply mark_rel_refl | apply mark_rel_trans|]. intros a b c _. apply mark_consumers_pending_rel. }
+  assert (R : mark_rel s1 s') by (eapply mark_rel_trans; [exact R2 | eapply mark_rel_trans; eassumption]).
+  apply mark_rel_Ru in R. destruct R as [N2 F2]. split; [congruence|].
+  eapply Forall2_trans_gen; [|exact F1 | exact F2].
+  intros a b c Hab Hbc. pose proof (Ru_comp _ _ _ _ _ Hab Hbc) as [Hl Hu]. split; [exact Hl|].
+  intros E. destruct (Hu E) as [E1 [HP _]]. split; assumption.
+Qed.
+
+Lemma fstate_eqb_eq a b : fstate_eqb a b = true -> a = b.
+Proof. destruct a, b; cbn; intros H; try reflexivity; discriminate. Qed.
+
+Lemma confirm_all d L : forall s s',
+  foldM (fun s p => update_file_hashes CConfirmed [(p, disk_get p d)] s) L s = Ok s' ->
+  nodes s' = nodes s /\ Forall2 (Ru (fun l => ~ In l L)) (files s) (files s').
+Proof.
+  induction L as [|p L IH]; intros s s' H; cbn [foldM] in H.
+  - inversion H. subst. split; [reflexivity|]. apply Forall2_refl. intros x. split; [reflexivity|].
+    intros E. split; [exact E | intros []].
+  - apply bind_ok in H. destruct H as [s1 [H1 H2]]. apply confirm_one in H1. destruct H1 as [N1 F1].
+    apply IH in H2. destruct H2 as [N2 F2]. split; [congruence|].
+    eapply Forall2_trans_gen; [|exact F1 | exact F2].
+    intros a b c Hab Hbc. pose proof (Ru_comp _ _ _ _ _ Hab Hbc) as [Hl Hu]. split; [exact Hl|].
+    intros E. destruct (Hu E) as [E1 [HP HQ]]. split; [exact E1|]. intros [C|C]; [apply HP; symmetry; exact C | exact (HQ C)].
+Qed.
+
+(* Theorem 3.  A file left UNCONFIRMED by a kill between its declaration and the application
+   of its hash job is resolved at the next start: rescan_files applies the fresh hash with
+   cause CONFIRMED, the only cause with a transition out of UNCONFIRMED, so that afterwards no
+   attached file is UNCONFIRMED (it is CONFIRMED or MISSING, possibly degraded further). *)
+Theorem stray_unconfirmed_resolved d s s' :
+  rescan_unconfirmed d s = Ok s' -> attached_unconfirmed s' = [].
+Proof.
+  unfold rescan_unconfirmed. intros H. apply confirm_all in H. destruct H as [N F].
+  unfold attached_unconfirmed at 1. rewrite filter_nil; [reflexivity|]. intros r' Hin.
+  destruct (fstate_eqb (fstt r') FUnconfirmed) eqn:E; [|reflexivity]. cbn [andb]. apply fstate_eqb_eq in E.
+  destruct (Forall2_In_r _ _ _ _ F Hin) as [r [Hr [Hl Hu]]]. destruct (Hu E) as [E1 Hno].
+  destruct (is_detached (KFile, fl r') s') eqn:Ed; [reflexivity|]. exfalso. apply Hno.
+  unfold attached_unconfirmed. apply in_map_iff. exists r. split; [reflexivity|]. apply filter_In.
+  split; [exact Hr|]. rewrite E1. cbn [fstate_eqb fstate_code N.eqb Pos.eqb andb].
+  unfold is_detached, find_node in *. rewrite N, Hl in Ed. rewrite Ed. reflexivity.
+Qed.
+
+(* CONFIRMED is the cause with transitions out of UNCONFIRMED to a settled static state *)
+Lemma confirmed_resolves known :
+  exists ns a, transition CConfirmed FUnconfirmed known = Some (ns, a) /\ (ns = FConfirmed \/ ns = FMissing).
+Proof. destruct known; cbn; eauto. Qed.
